@@ -90,7 +90,7 @@ func propC19(r *Run) {
 		pwn := 0
 		for i := 0; i < nclients; i++ {
 			var plan []*Call
-			for k := 0; k < 1+r.Choose("ncalls", 5); k++ {
+			for k, kN := 0, 1+r.Choose("ncalls", 5); k < kN; k++ {
 				u := users[r.Choose("call-user", len(users))]
 				c := &Call{Agent: a.idx, Via: "agent", User: u}
 				switch r.Choose("call-kind", 7) {
